@@ -524,12 +524,16 @@ inductive Prog where
   | call (id : Nat) (m : String) (pos : List Val) (kw : Dict) (caught : Bool) (fails : Bool) (next : Prog)
   /-- `c.update_current_context(**kv)` -/
   | update (kv : Dict) (next : Prog)
-  /-- `with c(**ctx): body`; `cb`: the `before_close` callbacks registered on the context, run in
-  order inside the context on every exit (a statement sequence: one that raises skips the rest) -/
-  | block (id : Nat) (ctx : Dict) (body : Prog) (cb : Prog) (next : Prog)
-  /-- `with mc.application(*pos, **kw): body`; `stopFails`: the stop signal's send raises;
-  `cb`: callbacks registered by the user on the returned context (they run after the stop signal) -/
-  | app (id : Nat) (pos : List Val) (kw : Dict) (stopFails : Bool) (body : Prog) (cb : Prog) (next : Prog)
+  /-- `o = c(**ctx)`: a new context OBJECT, kept under the name `oid`; it can be entered any number
+  of times - again while it is already active, or later after it has been left -/
+  | new (oid : Nat) (ctx : Dict) (next : Prog)
+  /-- `o = mc.application(*pos, **kw)`: a decorated call, resolved NOW; the object it returns holds
+  `{app_id: ..}` and the stop-signal callback -/
+  | newApp (id : Nat) (oid : Nat) (pos : List Val) (kw : Dict) (next : Prog)
+  /-- `with o: body`.  `cb`: the `before_close` callbacks the user registered on the object, run in order
+  inside the context on every exit (a statement sequence: one that raises skips the rest; on an
+  application object they run after the stop signal); `stopFails`: the stop signal's send raises -/
+  | enter (id : Nat) (oid : Nat) (stopFails : Bool) (body : Prog) (cb : Prog) (next : Prog)
   /-- `try: body` / `except Exception: pass` -/
   | attempt (body : Prog) (next : Prog)
   deriving Repr
@@ -546,7 +550,8 @@ def CallRes.isRejected : CallRes → Bool
 inductive Ev where
   | call (id : Nat) (res : CallRes)
   | enter (id : Nat) (mergedAfter : Dict)
-  | exit (id : Nat) (stop : Option CallRes) (mergedAfter : Dict)
+  /-- `before`: the arguments in force just before the block was entered; `mergedAfter`: those in force after it -/
+  | exit (id : Nat) (stop : Option CallRes) (before : Dict) (mergedAfter : Dict)
   deriving Repr
 
 structure Env where
@@ -576,62 +581,115 @@ def callRes (E : Env) (m : String) (pos : List Val) (kw : Dict) (stack : List Di
             | _, _, _ => false) then .rejected .noConnection
         else .sent nk pats
 
-/-- `update_current_context`: update the newest context -/
-def updTop : List Dict → Dict → List Dict
-  | [], _ => []
-  | c :: older, kv => dupdate c kv :: older
+/-! ### context objects
 
-structure Res where
-  stack : List Dict
-  evs : List Ev
-  raised : Bool
+The stack of `ContextMixin` holds context OBJECTS (references): `with o:` pushes `o`, leaving pops it;
+`update_current_context` mutates the object on top - visible wherever else that object is active and
+whenever it is entered again.  So the state is a heap of objects and a stack of object names. -/
+
+structure Obj where
+  /-- `Context.context_arguments` -/
+  args : Dict
+  /-- made by `mc.application(..)`: its first `before_close` callback sends the stop signal -/
+  stop : Bool
   deriving Repr
 
+/-- newest binding first -/
+abbrev Heap := List (Nat × Obj)
+
+def hget : Heap → Nat → Option Obj
+  | [], _ => none
+  | (k, v) :: t, o => if k = o then some v else hget t o
+
+def hset (h : Heap) (o : Nat) (v : Obj) : Heap := (o, v) :: h
+
+def argsOf (h : Heap) (o : Nat) : Dict :=
+  match hget h o with
+  | some ob => ob.args
+  | none => []
+
+/-- the argument dictionaries of the active contexts, newest first -/
+def frames (h : Heap) (s : List Nat) : List Dict := s.map (argsOf h)
+
+/-- `get_context_arguments()` -/
+def inForce (h : Heap) (s : List Nat) : Dict := merged (frames h s)
+
+/-- the object names the sugar `block` / `app` (a fresh object per `with`) uses for statement `id` -/
+def sugarOid (id : Nat) : Nat := 1000000 + id
+
+/-- `with c(**ctx): body` - a fresh object, entered once -/
+def Prog.block (id : Nat) (ctx : Dict) (body cb next : Prog) : Prog :=
+  .new (sugarOid id) ctx (.enter id (sugarOid id) false body cb next)
+
+/-- `with mc.application(*pos, **kw): body` - a fresh application object, entered once -/
+def Prog.app (id : Nat) (pos : List Val) (kw : Dict) (stopFails : Bool) (body cb next : Prog) : Prog :=
+  .newApp id (sugarOid id) pos kw (.enter id (sugarOid id) stopFails body cb next)
+
+structure Res where
+  heap : Heap
+  /-- names of the active context objects, newest first -/
+  stack : List Nat
+  evs : List Ev
+  raised : Bool
+  /-- the objects created or updated on the way -/
+  touched : List Nat
+  deriving Repr
+
+/-- the rest `r` of a statement sequence, unless an exception is propagating (`stop`) -/
+def orElse (stop : Bool) (h : Heap) (s : List Nat) (r : Res) : Res :=
+  if stop then ⟨h, s, [], true, []⟩ else r
+
 /-- run a program; the stack is newest-first -/
-def exec (E : Env) : List Dict → Prog → Res
-  | s, .done => ⟨s, [], false⟩
-  | s, .raise => ⟨s, [], true⟩
-  | s, .call id m pos kw caught fails next =>
-    let r := callRes E m pos kw s
-    if (r.isRejected || fails) && !caught then ⟨s, [.call id r], true⟩
-    else
-      let n := exec E s next
-      ⟨n.stack, .call id r :: n.evs, n.raised⟩
-  | s, .update kv next => exec E (updTop s kv) next
-  | s, .attempt body next =>
-    let b := exec E s body
-    let n := exec E b.stack next
-    ⟨n.stack, b.evs ++ n.evs, n.raised⟩
-  | s, .block id ctx body cb next =>
-    -- Context.__enter__: push; body; Context.__exit__: callbacks (try), pop (finally)
-    let b := exec E (dictOf ctx :: s) body
-    let c := exec E b.stack cb
-    let s' := c.stack.tail
-    let evs := Ev.enter id (merged (dictOf ctx :: s)) :: (b.evs ++ c.evs ++ [Ev.exit id none (merged s')])
-    if b.raised || c.raised then ⟨s', evs, true⟩
-    else
-      let n := exec E s' next
-      ⟨n.stack, evs ++ n.evs, n.raised⟩
-  | s, .app id pos kw stopFails body cb next =>
+def exec (E : Env) : Heap → List Nat → Prog → Res
+  | h, s, .done => ⟨h, s, [], false, []⟩
+  | h, s, .raise => ⟨h, s, [], true, []⟩
+  | h, s, .call id m pos kw caught fails next =>
+    let r := callRes E m pos kw (frames h s)
+    let n := orElse ((r.isRejected || fails) && !caught) h s (exec E h s next)
+    ⟨n.heap, n.stack, .call id r :: n.evs, n.raised, n.touched⟩
+  | h, s, .update kv next =>
+    -- `self.__context_stack[-1].update(kv)`: the OBJECT on top is updated
+    match s with
+    | [] => exec E h s next
+    | o :: _ =>
+      let n := exec E (hset h o ⟨dupdate (argsOf h o) kv, ((hget h o).map (·.stop)).getD false⟩) s next
+      ⟨n.heap, n.stack, n.evs, n.raised, o :: n.touched⟩
+  | h, s, .attempt body next =>
+    let b := exec E h s body
+    let n := exec E b.heap b.stack next
+    ⟨n.heap, n.stack, b.evs ++ n.evs, n.raised, b.touched ++ n.touched⟩
+  | h, s, .new o ctx next =>
+    let n := exec E (hset h o ⟨dictOf ctx, false⟩) s next
+    ⟨n.heap, n.stack, n.evs, n.raised, o :: n.touched⟩
+  | h, s, .newApp id o pos kw next =>
     -- `mc.application(..)` is itself a decorated call; it builds `self(app_id=app_id)`
     match findSig E.sigs E.cls "application" with
-    | none => ⟨s, [.call id (.rejected .bind)], true⟩
+    | none => ⟨h, s, [.call id (.rejected .bind)], true, []⟩
     | some sg =>
-      match resolve sg pos.length kw s >>= bind sg pos with
-      | .error e => ⟨s, [.call id (.rejected e)], true⟩
+      match resolve sg pos.length kw (frames h s) >>= bind sg pos with
+      | .error e => ⟨h, s, [.call id (.rejected e)], true, []⟩
       | .ok bound =>
-        let ctx : Dict := [("app_id", (dget bound "app_id").getD .none)]
-        let b := exec E (ctx :: s) body
-        -- first before_close callback: `self.send_signal("stop")`, resolved now
-        let stop := callRes E "send_signal" [.other "'stop'"] [] b.stack
-        -- then the user's callbacks, unless the stop signal raised; then (finally) pop
-        let c := if stop.isRejected || stopFails then (⟨b.stack, [], true⟩ : Res) else exec E b.stack cb
-        let s' := c.stack.tail
-        let evs := Ev.enter id (merged (ctx :: s)) :: (b.evs ++ c.evs ++ [Ev.exit id (some stop) (merged s')])
-        if b.raised || c.raised then ⟨s', evs, true⟩
-        else
-          let n := exec E s' next
-          ⟨n.stack, evs ++ n.evs, n.raised⟩
+        let n := exec E (hset h o ⟨[("app_id", (dget bound "app_id").getD .none)], true⟩) s next
+        ⟨n.heap, n.stack, n.evs, n.raised, o :: n.touched⟩
+  | h, s, .enter id o stopFails body cb next =>
+    match hget h o with
+    | none => ⟨h, s, [], true, []⟩          -- not a program the generators write
+    | some ob =>
+      -- Context.__enter__: push the object; body; Context.__exit__: callbacks (try), pop (finally)
+      let b := exec E h (o :: s) body
+      -- first callback of an application object: `self.send_signal("stop")`, resolved now
+      let stop := if ob.stop then some (callRes E "send_signal" [.other "'stop'"] [] (frames b.heap b.stack)) else none
+      let skip := match stop with
+        | some r => r.isRejected || stopFails
+        | none => false
+      -- then the user's callbacks, unless the stop signal raised; then (finally) pop
+      let c := orElse skip b.heap b.stack (exec E b.heap b.stack cb)
+      let s' := c.stack.tail
+      let n := orElse (b.raised || c.raised) c.heap s' (exec E c.heap s' next)
+      ⟨n.heap, n.stack,
+       Ev.enter id (inForce h (o :: s)) ::
+        (b.evs ++ c.evs ++ [Ev.exit id stop (inForce h s) (inForce c.heap s')]) ++ n.evs,
+       n.raised, b.touched ++ c.touched ++ n.touched⟩
 
 /-! ## line protocol -/
 open Lean Rig.P
@@ -702,9 +760,9 @@ def callResToJson : CallRes → Json
 def evToJson : Ev → Json
   | .call id r => Json.mkObj [("ev", .str "call"), ("id", jNat id), ("res", callResToJson r)]
   | .enter id m => Json.mkObj [("ev", .str "enter"), ("id", jNat id), ("merged", dictToJson m)]
-  | .exit id stop m =>
+  | .exit id stop before m =>
     Json.mkObj [("ev", .str "exit"), ("id", jNat id), ("stop", jOpt callResToJson stop),
-      ("merged", dictToJson m)]
+      ("before", dictToJson before), ("merged", dictToJson m), ("restored", .bool (before == m))]
 
 partial def progOfJson (j : Json) : R Prog := do
   -- a JSON array of statements
@@ -727,10 +785,17 @@ partial def progOfJson (j : Json) : R Prog := do
       | "try" => pure (.attempt (← progOfJson (← field st "body")) (← go rest))
       | "update" => pure (.update (← dictOfJson (← field st "kv")) (← go rest))
       | "block" =>
-        pure (.block (← nat st "id") (← dictOfJson (← field st "ctx"))
+        pure (Prog.block (← nat st "id") (← dictOfJson (← field st "ctx"))
+          (← progOfJson (← field st "body")) (← optProg st "cb") (← go rest))
+      | "new" => pure (.new (← nat st "oid") (← dictOfJson (← field st "ctx")) (← go rest))
+      | "newapp" =>
+        pure (.newApp (← nat st "id") (← nat st "oid") (← valsOfJson (← field st "pos"))
+          (← dictOfJson (← field st "kw")) (← go rest))
+      | "enter" =>
+        pure (.enter (← nat st "id") (← nat st "oid") (← optBool st "stop_fails")
           (← progOfJson (← field st "body")) (← optProg st "cb") (← go rest))
       | "app" =>
-        pure (.app (← nat st "id") (← valsOfJson (← field st "pos")) (← dictOfJson (← field st "kw"))
+        pure (Prog.app (← nat st "id") (← valsOfJson (← field st "pos")) (← dictOfJson (← field st "kw"))
           (← bool st "stop_fails") (← progOfJson (← field st "body")) (← optProg st "cb") (← go rest))
       | s => .error s!"unknown statement {s}"
   go (← asArr j)
@@ -759,9 +824,13 @@ def handle (op : String) (j : Json) : R Json := do
     let E ← envOfJson j
     let stack := ((← arr j "stack").mapM dictOfJson)
     let st ← stack
-    let res := exec E (st.map dictOf).reverse (← progOfJson (← field j "prog"))
+    -- the initial contexts are objects 0, 1, .. (oldest first)
+    let h0 : Heap := st.zipIdx.map fun di => (di.2, (⟨dictOf di.1, false⟩ : Obj))
+    let s0 : List Nat := (List.range st.length).reverse
+    let res := exec E h0 s0 (← progOfJson (← field j "prog"))
     pure (Json.mkObj [("events", jList (res.evs.map evToJson)), ("raised", .bool res.raised),
-      ("stack", jList (res.stack.reverse.map dictToJson)), ("merged", dictToJson (merged res.stack))])
+      ("stack", jList ((frames res.heap res.stack).reverse.map dictToJson)),
+      ("merged", dictToJson (inForce res.heap res.stack))])
   | "resolve" =>
     let E ← envOfJson j
     let st ← (← arr j "stack").mapM dictOfJson
